@@ -28,7 +28,7 @@ ASSUME = [
     "real-thread runs assert only what does not depend on the unobservable interleaving (sequence numbers taken before a call starts and after its reply arrived)",
     "repeated SearchStarted events of an open search (one per query sent) count as one",
 ]
-NEED = ["C14.cleanup", "C14.goodbye", "C14.stopped", "C14.behind-exit", "C14.after", "C14.after-seen", "C14.status-fast", "C14.again",
+NEED = ["C14.cleanup", "C14.goodbye", "C14.goodbye-v6", "C14.stopped", "C14.behind-exit", "C14.after", "C14.after-seen", "C14.status-fast", "C14.again",
         "C14.window", "C14.shutdown-reply", "C14.threads", "C14.final"]
 
 
